@@ -127,8 +127,33 @@ def overridden_binding_reference():
     return None
 
 
+HIDDEN_PARENT = ("module m\n  implicit none\n  private\n  public :: child_t, f\n  type :: base_t\n    integer :: n\n  contains\n    procedure :: act\n  end type base_t\n  type, extends(base_t) :: child_t\n    !! child doc\n"
+                 "  end type child_t\ncontains\n  subroutine act(self)\n    class(base_t) :: self\n  end subroutine act\n  function f(x) result(res)\n    !! f doc\n    integer :: x\n    integer :: res\n      !! res doc\n"
+                 "    res = x\n  end function f\nend module m\n")
+
+
+def members_and_results():
+    """a reference to a member that a displayed type inherits from a type that is not displayed is plain text (the member is described on a page that is not written) - components
+    and bindings alike; a reference to the result variable of a function links to its row on the function's page"""
+    proj = realrun.build_project({"src/m.f90": HIDDEN_PARENT})
+    mdm = loader.import_repo("ford._markdown")
+    md = mdm.MetaMarkdown(project=proj, base_url=".")
+    child = next(t for t in proj.types if t.name == "child_t")
+    fn = next(p for p in proj.procedures if p.name == "f")
+    bad = []
+    for text, ctx, want in (("[[child_t:act]]", child, None), ("[[child_t:n]]", child, None), ("[[res]]", fn, "proc/f.html#variable-res"), ("[[f:res]]", fn, "proc/f.html#variable-res")):
+        got, out = href(md, text, ctx)
+        norm = None if got is None else re.sub(r"^(\./|\.\./)+", "", got)
+        if norm != want:
+            bad.append((text, got, want))
+    if bad:
+        return {"confirmed": True, "input": {"source": HIDDEN_PARENT, "display": "public, protected (default)"}, "actual": bad, "expected": "(reference, href): no link for members described on an unwritten page; the result variable's row",
+                "how": "href produced by FordLinkProcessor in the context of the extending type / of the function"}
+    return None
+
+
 def search():
-    hit = overridden_binding_reference()
+    hit = overridden_binding_reference() or members_and_results()
     if hit:
         return hit
     proj, md = build()
